@@ -332,7 +332,12 @@ func (s *LevelDBStore) DeleteRange(min, max uint64) error {
 		if err := iterator.Error(); err != nil {
 			return err
 		}
-		batch.Delete(iterator.Key())
+		// Keys of the stable store ("stablestore-…") sort in between log
+		// indexes (below and above 0x7374…), so a range which spans them
+		// must skip them.
+		if !bytes.HasPrefix(iterator.Key(), []byte("stablestore-")) {
+			batch.Delete(iterator.Key())
+		}
 		available = iterator.Next()
 	}
 	return s.db.Write(&batch, nil)
